@@ -2205,15 +2205,22 @@ static bool parse_ignored(TokenContext &ctx, Chunk &pc)
       pc.SetType(CT_IGNORED);
       return(true);
    }
-
    // Look for the ending comment and let it pass
-   if (  parse_comment(ctx, pc)
+   const bool is_comment = parse_comment(ctx, pc);
+
+   if (  is_comment
       && !cpd.unc_off)
    {
       return(true);
    }
-   // Reset the chunk & scan to until a newline
-   pc.Str().clear();
+
+   // Scan until a newline; a comment that did not end the region is part of
+   // the region line and stays in front of the rest
+   if (!is_comment)
+   {
+      pc.Str().clear();
+   }
+   pc.SetNlCount(0);
 
    while (  ctx.more()
          && (ctx.peek() != '\r')
